@@ -246,6 +246,8 @@ def run_tlc(module, cfg, consts=None, workers=None, timeout=900, extra_files=Non
                 elif want_emits:
                     r.emitted.append(obj)
                 continue
+            if line.startswith('<<"ST"'):
+                raise InfraError("garbled TLC emit line (interleaved output?): %s" % line[:200])
             tail.append(line)
             if len(tail) > 400:
                 del tail[:200]
